@@ -1137,3 +1137,254 @@ pub fn gen_c03(seed: u64, n: usize, tier: &str) -> Vec<String> {
     }
     out
 }
+
+// ------------------------------------------------------------------ C05: valid UPDATE + RFC 7606 corruptions
+fn pfx_term(id: u32, mask: u8, addr: &[u8]) -> String {
+    format!("({} {} {})", id, mask, Term::bytes(&addr[..(mask as usize).div_ceil(8)]))
+}
+
+fn c05_v4(r: &mut Rng, addpath: bool, n: usize) -> Vec<String> {
+    (0..n)
+        .map(|_| {
+            let (a, m) = r.pick(&V4_POOL);
+            pfx_term(if addpath { *r.pick(&[0u32, 1, 7]) } else { 0 }, *m, a)
+        })
+        .collect()
+}
+
+fn c05_v6(r: &mut Rng, addpath: bool, n: usize) -> Vec<String> {
+    (0..n)
+        .map(|_| {
+            let (a, m) = r.pick(&V6_POOL);
+            pfx_term(if addpath { *r.pick(&[0u32, 1, 7]) } else { 0 }, *m, a)
+        })
+        .collect()
+}
+
+/// a syntactically INVALID value for `code` (RFC 7606 length / value errors)
+fn c05_bad_value(r: &mut Rng, code: u8, two: bool, old: &[u8]) -> Vec<u8> {
+    let lens = |r: &mut Rng, ls: &[usize]| -> Vec<u8> {
+        let l = *r.pick(ls);
+        (0..l).map(|i| old.get(i).copied().unwrap_or(i as u8)).collect()
+    };
+    match code {
+        1 => r.pick(&[vec![3u8], vec![255], vec![], vec![0, 0]]).clone(),
+        2 => {
+            let w = if two { 2 } else { 4 };
+            match r.below(4) {
+                0 => {
+                    let mut v = vec![*r.pick(&[0u8, 5, 255]), 1];
+                    v.extend(std::iter::repeat(1).take(w));
+                    v
+                }
+                1 => {
+                    // count runs past the end
+                    let mut v = vec![2, 3];
+                    v.extend(std::iter::repeat(1).take(w * 2));
+                    v
+                }
+                2 => {
+                    let mut v = old.to_vec();
+                    v.push(2);
+                    v
+                }
+                _ => {
+                    let mut v = vec![2, 1];
+                    v.extend(std::iter::repeat(1).take(w - 1));
+                    v
+                }
+            }
+        }
+        3 => lens(r, &[0, 3, 5, 16, 32]),
+        4 | 5 | 9 => lens(r, &[0, 3, 5, 8]),
+        6 => lens(r, &[1, 4]),
+        7 => lens(r, &[0, 5, 7, 9]),
+        8 | 10 => lens(r, &[1, 3, 5, 6]),
+        16 => lens(r, &[7, 9, 4]),
+        32 => lens(r, &[11, 13, 4]),
+        17 => r.pick(&[vec![2u8, 1, 0, 0], vec![2, 0, 0, 0, 0, 0], vec![2, 1, 0, 0, 0, 1, 9], vec![0, 1, 0, 0, 0, 1], vec![2, 2, 0, 0, 0, 1]]).clone(),
+        18 => lens(r, &[0, 7, 9, 6]),
+        26 => r.pick(&[vec![1u8, 0, 2], vec![1, 0, 11, 0, 0], vec![1, 0, 0], vec![1, 0]]).clone(),
+        _ => lens(r, &[0, 1]),
+    }
+}
+
+pub fn gen_c05_case(r: &mut Rng) -> String {
+    // codec: IPv4 unicast nearly always, IPv6 unicast often
+    let mut fams = vec![];
+    let v4 = r.chance(19, 20);
+    let v6 = r.chance(2, 3);
+    if v4 {
+        fams.push((1u16, 1u8, r.chance(1, 4)));
+    }
+    if v6 {
+        fams.push((2u16, 1u8, r.chance(1, 4)));
+    }
+    if fams.is_empty() {
+        fams.push((1, 1, false));
+    }
+    let desc = CodecDesc { ext: r.chance(1, 4), two: r.chance(1, 3), fams };
+    let has4 = desc.fams.iter().any(|f| f.0 == 1);
+    let has6 = desc.fams.iter().any(|f| f.0 == 2);
+    let ap4 = desc.fams.iter().any(|f| f.0 == 1 && f.2);
+    let ap6 = desc.fams.iter().any(|f| f.0 == 2 && f.2);
+    let ebgp = r.chance(1, 2);
+    let two = desc.two;
+
+    let legacy_nlri = has4 && r.chance(3, 5);
+    let mp_reach = if has6 && r.chance(2, 5) { 6 } else if has4 && !legacy_nlri && r.chance(1, 6) { 4 } else { 0 };
+    let announces = legacy_nlri || mp_reach != 0;
+    let wd_n = if has4 && (r.chance(1, 3) || !announces) { 1 + r.below(2) as usize } else { 0 };
+    let mp_unreach = has6 && (r.chance(1, 5) || (!announces && wd_n == 0));
+    let wd = c05_v4(r, ap4, wd_n);
+    let nn = 1 + r.below(3) as usize;
+    let nlri = if legacy_nlri { c05_v4(r, ap4, nn) } else { vec![] };
+    let mpr = match mp_reach {
+        6 => {
+            let nh: Vec<u8> = if r.chance(2, 3) { V6_POOL[4].0.to_vec() } else { [V6_POOL[4].0, V6_POOL[5].0].concat() };
+            let k = 1 + r.below(2) as usize;
+            format!("(mpr 2 1 {} {})", Term::bytes(&nh), c05_v6(r, ap6, k).join(" "))
+        }
+        4 => {
+            let k = 1 + r.below(2) as usize;
+            format!("(mpr 1 1 x0a000001 {})", c05_v4(r, ap4, k).join(" "))
+        }
+        _ => "none".to_string(),
+    };
+    let ku = 1 + r.below(2) as usize;
+    let mpu = if mp_unreach { format!("(mpu 2 1 {})", c05_v6(r, ap6, ku).join(" ")) } else { "none".to_string() };
+    let anything = announces || wd_n > 0 || mp_unreach;
+
+    // attributes (flags, code, data)
+    let mut attrs: Vec<(u8, u8, Vec<u8>)> = Vec::new();
+    if announces || r.chance(1, 3) {
+        attrs.push((0x40, 1, vec![r.below(3) as u8]));
+        let p = if two { as2_path(r) } else { as_path_bin(r) };
+        attrs.push((0x40, 2, p));
+    }
+    if legacy_nlri {
+        attrs.push((0x40, 3, vec![10, 0, 0, 1]));
+    }
+    if announces {
+        if r.chance(1, 2) {
+            attrs.push((0x80, 4, vec![0, 0, 0, *r.pick(&[0u8, 5, 100])]));
+        }
+        if r.chance(1, 2) {
+            attrs.push((0x40, 5, vec![0, 0, 0, *r.pick(&[100u8, 200])]));
+        }
+        if r.chance(1, 6) {
+            attrs.push((0x40, 6, vec![]));
+        }
+        if r.chance(1, 4) {
+            let d = if r.chance(1, 2) { vec![0xfd, 0xe9, 10, 0, 0, 9] } else { vec![0, 0, 0xfd, 0xe9, 10, 0, 0, 9] };
+            attrs.push((0xc0, 7, d));
+        }
+        if r.chance(1, 3) {
+            attrs.push((0xc0, 8, vec![0xff, 0xff, 0xff, 0x01]));
+        }
+        if r.chance(1, 5) {
+            attrs.push((0x80, 9, vec![10, 0, 0, 7]));
+        }
+        if r.chance(1, 5) {
+            attrs.push((0x80, 10, vec![10, 0, 0, 8, 10, 0, 0, 9]));
+        }
+        if r.chance(1, 6) {
+            attrs.push((0xc0, 16, vec![0, 2, 0xfd, 0xe8, 0, 0, 0, 100]));
+        }
+        if r.chance(1, 6) {
+            attrs.push((0xc0, 32, vec![0, 0, 0xfd, 0xe8, 0, 0, 0, 1, 0, 0, 0, 2]));
+        }
+        if r.chance(1, 5) {
+            attrs.push((0x80, 26, vec![1, 0, 11, 0, 0, 0, 0, 0, 0, 0, 100]));
+        }
+        if r.chance(1, 4) {
+            attrs.push((0xc0, 17, as4_path(r)));
+        }
+        if r.chance(1, 5) {
+            attrs.push((0xc0, 18, vec![0, 1, 0, 0, 10, 0, 0, 9]));
+        }
+        if r.chance(1, 8) {
+            attrs.push((0xc0, 40, vec![5, 0, 3, 0, 0, 0]));
+        }
+    }
+    if !anything {
+        // never emit an empty case
+        return gen_c05_case(r);
+    }
+    let nr = attrs.len() + (mp_reach != 0) as usize + mp_unreach as usize;
+    let code_at = |i: usize| -> u8 {
+        if i < attrs.len() {
+            attrs[i].1
+        } else if mp_reach != 0 && i == attrs.len() {
+            14
+        } else {
+            15
+        }
+    };
+    let canon = |c: u8| Attribute::canonical_flags(c).unwrap_or(0xc0);
+
+    let ncorr = match r.below(20) {
+        0 | 1 => 0,
+        2..=12 => 1,
+        13..=17 => 2,
+        _ => 3,
+    };
+    let mut corr: Vec<String> = Vec::new();
+    for _ in 0..ncorr {
+        let i = if nr > 0 { r.below(nr as u64) as usize } else { 0 };
+        let code = if nr > 0 { code_at(i) } else { 0 };
+        let old: Vec<u8> = if i < attrs.len() { attrs[i].2.clone() } else { vec![0, 2, 1, 16] };
+        let c = match r.below(20) {
+            0..=4 if nr > 0 => {
+                let f = match r.below(6) {
+                    0 => canon(code) ^ 0x80,
+                    1 => canon(code) ^ 0x40,
+                    2 => canon(code) ^ 0xc0,
+                    3 => canon(code) | 0x20,
+                    4 => canon(code) | 0x10,
+                    _ => canon(code) | 0x0f,
+                };
+                format!("(flags {} {})", i, f)
+            }
+            5..=10 if nr > 0 => {
+                let d = if r.chance(1, 8) { old.clone() } else { c05_bad_value(r, code, two, &old) };
+                format!("(data {} {})", i, Term::bytes(&d))
+            }
+            11 if nr > 0 => format!("(lenfield {} {})", i, *r.pick(&[0usize, old.len() + 1, old.len().saturating_sub(1), 255, old.len()])),
+            12 | 13 if nr > 0 => {
+                let d = if r.chance(1, 2) { old.clone() } else { let mut v = old.clone(); if let Some(x) = v.last_mut() { *x ^= 1 } else { v.push(1) }; v };
+                format!("(dup {} {})", i, Term::bytes(&d))
+            }
+            14 | 15 if nr > 0 => format!("(omit {})", i),
+            16 => format!("(trunc {})", *r.pick(&[1usize, 2, 3, 4, 5, 7, 8, 0])),
+            17 | 18 => format!(
+                "(unknown {} {} {})",
+                *r.pick(&[0x40u8, 0x00, 0x80, 0xc0, 0xe0, 0x50]),
+                *r.pick(&[99u8, 200, 13, 0, 255]),
+                Term::bytes(&[1, 2, 3][..r.below(4) as usize])
+            ),
+            _ => format!("(nlribad {})", *r.pick(&[33u8, 255, 0, 32])),
+        };
+        corr.push(c);
+    }
+    let attrs_t: Vec<String> = attrs.iter().map(|a| format!("(a {} {} {})", a.0, a.1, Term::bytes(&a.2))).collect();
+    format!(
+        "(c05 {} {} (upd (wd {}) (attrs {}) {} {} (nlri {})) (corr {}))",
+        desc.term(),
+        if ebgp { "t" } else { "f" },
+        wd.join(" "),
+        attrs_t.join(" "),
+        mpr,
+        mpu,
+        nlri.join(" "),
+        corr.join(" ")
+    )
+    .replace("( ", "(")
+    .replace(" )", ")")
+    .replace("(wd)", "(wd)")
+}
+
+pub fn gen_c05(seed: u64, n: usize, _tier: &str) -> Vec<String> {
+    let mut r = Rng(seed.wrapping_mul(0x9E3779B97F4A7C15) ^ 0xC05);
+    (0..n).map(|_| gen_c05_case(&mut r)).collect()
+}
